@@ -65,6 +65,11 @@ class Canon:
             else:
                 r = 'name %s' % hx(proc.unescape(t['result']))
             return 'readdir %d = %s' % (self.h(a['fd']), r)
+        if n == 'lseek' and (a.get('off', '0') != '0' or a.get('whence', 'SEEK_SET') != 'SEEK_SET'):
+            # the model's `lseek` IS lseek(fd, 0, SEEK_SET), the only form mdsort uses (message_get_fd rewinds the descriptor it hands to a
+            # command): a seek to any other position is not the modelled call
+            self.notes.append('lseek to offset %s %s' % (a.get('off'), a.get('whence')))
+            return 'lseek-to-%s-%s %d = %s' % (a.get('off'), a.get('whence'), self.h(a['fd']), self.res(t))
         if n in ('rewinddir', 'closedir', 'fsync', 'close', 'fflush', 'fclose', 'lseek'):
             h = self.h(a['fd'])
             line = '%s %d = %s' % (n, h, self.res(t))
